@@ -131,6 +131,9 @@ package config
 //@   at@C15 return assert cmd != "output:file" ==> c.OutputFile == old(c.OutputFile)
 //@   at@C15 return assert cmd == "output:file" && err == nil && !strings.HasPrefix(parse.StringValue(rest), "@cwd/") ==> c.OutputFile == parse.StringValue(rest)
 //@   at@C12 return assert !ConverterKey(cmd) && !KnownCommonKey(cmd) ==> err != nil
+// output:format needs a value, one of the three formats
+//@   at@C12 call parse.Enum#1 assert !arg0 && arg1 == rest
+//@   at@C12 return assert cmd == "output:format" && err == nil ==> c.OutputFormat == FormatFunction || c.OutputFormat == FormatStruct || c.OutputFormat == FormatVariable
 //@   at@C12 return assert cmd == "name" && old(c.OutputFormat) != FormatStruct ==> err != nil
 //@   at@C12 return assert cmd == "struct:comment" && old(c.OutputFormat) != FormatStruct ==> err != nil
 //@   at@C12 call parseCommon#1 assert arg1 == cmd && arg2 == rest && !ConverterKey(cmd)
@@ -199,6 +202,10 @@ package config
 //@   propagates
 // C08: every enum:map line is recorded (identical names included: it pins the member against transformers)
 //@   at@C08 return assert cmd == "enum:map" && err == nil ==> len(strings.Fields(rest)) == 2 && has(m.EnumMapping.Map, strings.Fields(rest)[0]) && m.EnumMapping.Map[strings.Fields(rest)[0]] == strings.Fields(rest)[1]
+// C05: every field-level setting line (map, ignore, autoMap and the field-level inheritable keys) is recorded in
+// RawFieldSettings -- that list is what the overlap and the placement checks look at
+//@   at@C05 return assert (cmd == "map" || cmd == "ignore" || cmd == "autoMap" || cmd == "ignoreUnexported" || cmd == "matchIgnoreCase" || cmd == "ignoreMissing" || cmd == "update:ignoreZeroValueField") && err == nil
+//@           ==> len(m.RawFieldSettings) == old(len(m.RawFieldSettings)) + 1 && m.RawFieldSettings[len(m.RawFieldSettings)-1] == value
 // C05/C10: a mapping line never replaces the entry of a field (an earlier `ignore` of the same field stays in force)
 //@   at@C10,C05 return assert forall k string :: old(has(m.Fields, k)) ==> has(m.Fields, k) && m.Fields[k] == old(m.Fields[k])
 //@   at@C12 return assert !MethodKey(cmd) && !KnownCommonKey(cmd) ==> err != nil
@@ -207,7 +214,7 @@ package config
 //@   at@C12 return assert MethodKey(cmd) ==> same(m.Common, old(m.Common))
 //@   at@C14 return assert cmd == "context" && err == nil ==> has(m.localOpts.Context, parse.StringValue(rest))
 // per-use parse options of map|FUNC and default FUNC: optional source, generics allowed, the METHOD's context regex
-//@   at@C14,C06 call ctx.Loader.GetOne#* assert arg2 != nil && arg2.Params == method.ParamsOptional && arg2.AllowTypeParams && arg2.ContextMatch == m.ArgContextRegex
+//@   at@C14,C06,C12 call ctx.Loader.GetOne#* assert arg2 != nil && arg2.Params == method.ParamsOptional && arg2.AllowTypeParams && arg2.ContextMatch == m.ArgContextRegex
 //@           && arg2.OutputPackagePath == c.OutputPackagePath && arg0 == c.Package
 //@   at@C14 return assert cmd == "update" && err == nil ==> m.updateParam == parse.StringValue(rest)
 //@   at@C14 return assert cmd != "update" ==> m.updateParam == old(m.updateParam)
